@@ -85,3 +85,94 @@ func zzC23QuicHelloShape() {
 	}
 	verifReach("end")
 }
+
+//verif:harness C23 quic_event_order unwind=4000 instrs=400000000 paths=2000
+//verif:stub (*utls.UConn).BuildHandshakeState zzStubBuildHandshakeState
+//verif:stub (*utls.Conn).readHandshake zzStubReadHandshake
+//verif:stub (*utls.Conn).sendAlert zzStubSendAlert
+//verif:stub (*crypto/ecdh.PrivateKey).ECDH zzStubECDH
+//verif:stub (*github.com/refraction-networking/utls/internal/tls13.EarlySecret).HandshakeSecret zzStubHandshakeSecret
+//verif:stub (*github.com/refraction-networking/utls/internal/tls13.HandshakeSecret).ClientHandshakeTrafficSecret zzStubTrafficSecret
+//verif:stub (*github.com/refraction-networking/utls/internal/tls13.HandshakeSecret).ServerHandshakeTrafficSecret zzStubTrafficSecret
+//verif:stub (*github.com/refraction-networking/utls/internal/tls13.HandshakeSecret).MasterSecret zzStubMasterSecret
+//verif:stub (*utls.halfConn).setTrafficSecret zzStubSetTrafficSecret
+//verif:stub (*utls.cipherSuiteTLS13).finishedHash zzStubFinishedHash
+//verif:expect completed refused
+//verif:assume key schedule, ECDH and the Finished MAC are opaque; the server's EncryptedExtensions is a scripted object; one goroutine runs the client's handshake steps in handshake order (the event pump between QUIC layer and handshake goroutine is outside the technique)
+//verif:doc The QUIC event stream produced by the real client-side steps run in handshake order inside UConn.handshakeContext - establishHandshakeKeys, readServerParameters (EncryptedExtensions with or without quic_transport_parameters of 0..2 symbolic bytes), sendClientFinished, then handshakeContext's own completion code: at each encryption level the write secret is delivered before the read secret, the 1-RTT read secret comes only after HandshakeDone, the peer's transport parameters are delivered exactly once and byte for byte, and a server that omits them is refused with missing_extension without any later secret being delivered.
+func zzC23QuicEventOrder() {
+	zzAlerts, zzBuildFails = nil, false
+	cfg := zzConfig("example.com")
+	cfg.MinVersion = VersionTLS13
+	cfg.SessionTicketsDisabled = true
+	q := UQUICClient(&QUICConfig{TLSConfig: cfg}, HelloCustom)
+	uc := q.conn
+	c := uc.Conn
+	c.vers = VersionTLS13
+	key, kerr := generateECDHEKey(zzRandReader{}, X25519)
+	if kerr != nil {
+		verifFail("key-generation", "")
+		return
+	}
+	var tp []byte
+	hasTP := verifBool("server-sends-transport-parameters")
+	if hasTP {
+		tp = verifBytes("server-tp", verifChoice("server-tp-len", 3))
+		if tp == nil {
+			tp = []byte{}
+		}
+	}
+	hello := &clientHelloMsg{keyShares: []keyShare{{group: X25519, data: key.PublicKey().Bytes()}}, alpnProtocols: []string{"h3"}}
+	sh := &serverHelloMsg{serverShare: keyShare{group: X25519, data: make([]byte, 32)}}
+	var stepErr error
+	uc.handshakeFn = func(ctx context.Context) error {
+		hs := &clientHandshakeStateTLS13{c: c, uconn: uc, hello: hello, serverHello: sh, suite: cipherSuiteTLS13ByID(TLS_AES_128_GCM_SHA256), transcript: &zzUFHash{},
+			keyShareKeys: &keySharePrivateKeys{curveID: X25519, ecdhe: key}, earlySecret: nil, trafficSecret: make([]byte, 32)}
+		if stepErr = hs.establishHandshakeKeys(); stepErr != nil {
+			return stepErr
+		}
+		zzInbox = []any{&encryptedExtensionsMsg{alpnProtocol: "h3", quicTransportParameters: tp}}
+		if stepErr = hs.readServerParameters(); stepErr != nil {
+			return stepErr
+		}
+		if stepErr = hs.sendClientFinished(); stepErr != nil {
+			return stepErr
+		}
+		c.isHandshakeComplete.Store(true)
+		return nil
+	}
+	err := uc.handshakeContext(context.Background())
+	evs := c.quic.events
+	idx := func(kind QUICEventKind, level QUICEncryptionLevel) (first, count int) {
+		first = -1
+		for i, e := range evs {
+			if e.Kind == kind && (kind != QUICSetReadSecret && kind != QUICSetWriteSecret || e.Level == level) {
+				if first < 0 {
+					first = i
+				}
+				count++
+			}
+		}
+		return
+	}
+	wh, nwh := idx(QUICSetWriteSecret, QUICEncryptionLevelHandshake)
+	rh, nrh := idx(QUICSetReadSecret, QUICEncryptionLevelHandshake)
+	wa, nwa := idx(QUICSetWriteSecret, QUICEncryptionLevelApplication)
+	ra, nra := idx(QUICSetReadSecret, QUICEncryptionLevelApplication)
+	done, ndone := idx(QUICHandshakeDone, 0)
+	tpi, ntp := idx(QUICTransportParameters, 0)
+	if !hasTP {
+		verifReach("refused")
+		verifAssert(err != nil && len(zzAlerts) >= 1 && zzAlerts[0] == alertMissingExtension, "missing-transport-parameters-refused")
+		verifAssert(ntp == 0 && nwa == 0 && nra == 0 && ndone == 0, "nothing-delivered-after-refusal")
+		verifAssert(verifChanClosed(c.quic.blockedc) && verifChanClosed(c.quic.signalc), "channels-closed")
+		return
+	}
+	verifReach("completed")
+	verifAssert(err == nil, "handshake-steps-complete")
+	verifAssert(nwh == 1 && nrh == 1 && wh < rh, "handshake-level-write-before-read")
+	verifAssert(nwa == 1 && nra == 1 && wa < ra, "application-level-write-before-read")
+	verifAssert(ndone == 1 && done < ra && wa < done, "one-rtt-read-secret-only-after-handshake-done")
+	verifAssert(ntp == 1 && tpi > rh && tpi < wa && len(evs[tpi].Data) == len(tp) && zzBytesEq(evs[tpi].Data, tp), "peer-transport-parameters-delivered-exactly-once")
+	verifAssert(rh < wa, "handshake-level-before-application-level")
+}
